@@ -45,6 +45,7 @@ type lockAnalysis struct {
 	try       *ssa.Function
 	guarded   func(path []PE) (string, bool) // name of guarded item
 	touching  map[*ssa.Function]bool
+	isEntry   func(*ssa.Function) bool
 	memo      map[[2]interface{}]*lockResult
 	evals     int
 }
@@ -118,7 +119,10 @@ func (la *lockAnalysis) analyze(fn *ssa.Function, entry int) *lockResult {
 		switch x := in.(type) {
 		case *ssa.Return:
 			r.exits |= 1 << uint(s)
-			if s != stU {
+			// Only an entry point has to give the lock back: a function called
+			// with the lock held returns with it held, and a wrapper that takes
+			// the lock for its caller is accounted for in the caller's flow.
+			if s != stU && entry == stU && (la.isEntry == nil || la.isEntry(fn)) {
 				addErr(n, "return-while-held", "function returns with the lock held")
 			}
 			return 0
